@@ -219,3 +219,62 @@ Proof.
   intros C V H. unfold g_unregister. rewrite C, V. cbn.
   destruct H as [-> | ->]; cbn; rewrite ?andb_false_r, ?andb_true_r; cbn; rewrite ?andb_true_r; reflexivity.
 Qed.
+
+(* ------------------------------------------------------------------ any tombstone request *)
+(* Also for the wildcard topic, whose choice of registrations depends on Go's map
+   iteration order (outside [op_det]): whatever is chosen, a tombstone request never
+   changes who is registered where, and a mark that changes belongs to a producer that is
+   registered for that topic and whose broadcast_address:http_port is the named node. *)
+Local Arguments has_prod : simpl never.
+
+Lemma a_tomb_tombstone_in k0 id tm m t p :
+  a_tomb (tombstone_in k0 id tm m) t p =
+  if reg_eqb k0 (topic_key t) && N.eqb p id && a_prod m (topic_key t) p then Some tm else a_tomb m t p.
+Proof.
+  unfold a_tomb, a_prod. rewrite get_tombstone_in. destruct (reg_eqb k0 (topic_key t)); cbn [andb]; [|reflexivity].
+  destruct (get (topic_key t) m) as [ps|]; cbn [option_map]; [|rewrite andb_false_r; reflexivity].
+  rewrite find_map_id by (intros pr; destruct (N.eqb (p_id pr) id); reflexivity).
+  destruct (find (fun pr => N.eqb (p_id pr) p) ps) as [pr|] eqn:F; cbn [option_map].
+  - assert (has_prod p ps = true) as ->.
+    { destruct (has_prod p ps) eqn:Hp; [reflexivity|]. apply find_none_has_prod in Hp. congruence. }
+    rewrite andb_true_r. apply find_some in F as [_ F]. apply N.eqb_eq in F. rewrite F.
+    destruct (N.eqb p id); reflexivity.
+  - apply find_none_has_prod in F. rewrite F, andb_false_r. reflexivity.
+Qed.
+
+Lemma a_prod_tombstone_in k0 id tm m k q : a_prod (tombstone_in k0 id tm m) k q = a_prod m k q.
+Proof.
+  unfold a_prod. rewrite get_tombstone_in. destruct (reg_eqb k0 k); [|reflexivity].
+  destruct (get k m); cbn [option_map]; [|reflexivity]. apply has_prod_map_id.
+  intros pr. destruct (N.eqb (p_id pr) id); reflexivity.
+Qed.
+
+Lemma a_tomb_fold_tombstone tm (l : list (reg * producer)) : forall m t p,
+  a_tomb (fold_left (fun m (kp : reg * producer) => tombstone_in (fst kp) (p_id (snd kp)) tm m) l m) t p =
+  if existsb (fun kp : reg * producer => reg_eqb (fst kp) (topic_key t) && N.eqb p (p_id (snd kp))) l
+     && a_prod m (topic_key t) p
+  then Some tm else a_tomb m t p.
+Proof.
+  induction l as [|kp l IH]; intros m t p; cbn [fold_left existsb]; [reflexivity|].
+  rewrite IH, a_tomb_tombstone_in, a_prod_tombstone_in.
+  destruct (reg_eqb (fst kp) (topic_key t) && N.eqb p (p_id (snd kp))); cbn [orb andb].
+  - destruct (a_prod m (topic_key t) p); [|rewrite andb_false_r; reflexivity].
+    rewrite andb_true_r. destruct (existsb _ l); reflexivity.
+  - reflexivity.
+Qed.
+
+Theorem tombstone_any_request s t c node u p :
+  let s' := fst (h_tombstone s (QArgs (Some t) c (Some node))) in
+  (forall k q, a_prod (db s') k q = a_prod (db s) k q) /\
+  (a_tomb (db s') u p <> a_tomb (db s) u p ->
+   a_tomb (db s') u p = Some (now s) /\ a_prod (db s) (topic_key u) p = true /\ node_matches s node p = true).
+Proof.
+  cbn zeta. unfold h_tombstone. cbn [fst db set_db]. split.
+  - intros k q. apply a_prod_fold_tombstone.
+  - rewrite a_tomb_fold_tombstone.
+    destruct (existsb _ _) eqn:E; cbn [andb]; [|intros H; contradiction].
+    destruct (a_prod (db s) (topic_key u) p) eqn:P; [|intros H; contradiction].
+    intros _. split; [reflexivity|]. split; [reflexivity|].
+    apply existsb_exists in E as [kp [Hin Hk]]. apply filter_In in Hin as [_ Hn].
+    apply andb_true_iff in Hk as [_ Hk]. apply N.eqb_eq in Hk. rewrite Hk. exact Hn.
+Qed.
